@@ -93,6 +93,14 @@ typedef struct console {
 
 	const console_cmd_t *cmd;
 	pt_t pt;
+
+	/*!
+	 * Read position of console_eval() within the string being injected.
+	 *
+	 * This cannot live in the scratch buffers because they are cleared
+	 * each time a command completes.
+	 */
+	uint16_t eval_pos;
 } console_t;
 
 /*!
